@@ -534,16 +534,51 @@ def _must_store(n, target):
 def r4_scratch_fully_written(ctx, cf):
     """hcoords outlives the frame loop of kabsch_sander: ks_assign_hydrogens must store the position of every residue it does not
     skip on every path, otherwise the value of the previous frame (or of the allocation) is read by ks_donor_acceptor."""
+    from ..symval import SymExec, State, Ptr, Unsupported, elementary_facts, has_fact
+    from ..poly import Poly, Rat
     rel = "mdtraj/geometry/src/geometry.cpp"
     fn = cf.function(rel, "ks_assign_hydrogens")
     ctx.analysed_functions.add(rel + ":ks_assign_hydrogens")
-    guards = [n for n in C.walk(C.body_of(fn)) if n["kind"] == "IfStmt" and re.sub(r"\s", "", C.text(C.kids(n)[0])).startswith("(!skip[")]
-    if len(guards) < 2:
-        raise AnalysisError("ks_assign_hydrogens(): the per-residue `if (!skip[..])` guards were not found")
-    for g in guards:
-        ok = _must_store(C.kids(g)[1], "hcoords")
-        ctx.decide(ok, "C08-R4", C.line(g), rel, "ks_assign_hydrogens", "hcoords written on every path under %s" % re.sub(r"\s", "", C.text(C.kids(g)[0])), "",
-                   "a path through the branch for a complete residue stores no hydrogen position: the scratch vector, allocated once for all frames, keeps the value of the previous frame")
+    ps = [p_.get("name") for p_ in C.fparams(fn)]
+    if len(ps) != 5:
+        raise AnalysisError("ks_assign_hydrogens(): %d parameters (5 expected)" % len(ps))
+    xyz, nco, nres, hco, skip = ps
+    lvs = set()
+    for n in C.walk(fn):
+        if n["kind"] == "ForStmt":
+            init = [x for x in n.get("inner", []) if isinstance(x, dict) and "kind" in x]
+            if init and init[0].get("kind") == "DeclStmt":
+                lvs |= {v.get("name") for v in C.kids(init[0]) if v["kind"] == "VarDecl"}
+    ex = SymExec(cf, rel, symbolic_loops=lvs)
+    st = State()
+    for p_ in C.fparams(fn):
+        st.env[p_.get("name")] = Ptr(p_.get("name"), 0) if "*" in C.qtype(p_) else st.sym(p_.get("name"))
+    try:
+        outs = ex.run(C.kids(C.body_of(fn)), st)
+    except Unsupported as e:
+        ctx.undecided("C08-R4", C.line(fn), rel, "ks_assign_hydrogens", "hydrogen position written for every residue that is not skipped", "not evaluable: %s" % e)
+        return
+    if not ex.loops_seen:
+        raise AnalysisError("ks_assign_hydrogens(): the loop over the residues was not met")
+    rv = ex.loops_seen[0][0]
+    var = lambda n_: Rat(Poly.var(n_))     # noqa: E731
+    for which, flag, lanes in (("the first residue", var("%s[0]" % skip), (0, 1, 2)), ("residue %s of the loop" % rv, var("%s[%s]" % (skip, rv)), (4, 5, 6))):
+        n_paths = 0
+        bad = None
+        for o in outs:
+            facts = []
+            for (cv, pol), (txt, _p) in zip(o.cexprs, o.cvals):
+                facts += elementary_facts(ex, cv if cv is not None else txt, pol)
+            if not has_fact(facts, "==", flag):
+                continue        # skipped (or the flag is not tested on this path)
+            n_paths += 1
+            missing = [k for k in lanes if (hco, k) not in o.env]
+            if missing:
+                bad = bad or "on a path where %s is not skipped (conditions %s) components %s of its hydrogen position are not stored" % (which, [t for t, _p in o.cvals][:4], missing)
+        if n_paths == 0:
+            bad = bad or "no path on which %s is established as not skipped was found" % which
+        ctx.decide(bad is None, "C08-R4", C.line(fn), rel, "ks_assign_hydrogens", "hcoords written on every path on which %s is not skipped" % which, "%d paths" % n_paths,
+                   (bad or "") + ": the scratch vector, allocated once for all frames, keeps the value of the previous frame")
 
 
 FRAME_LOOP_KERNELS = [("mdtraj/geometry/src/geometry.cpp", f) for f in (
